@@ -49,6 +49,12 @@ func (t *brokerPublishQOS2Transaction) Pubrel(pubrel *pkts1.Pubrel) error {
 	pubcomp.CopyMessageID(pubrel)
 	topic, err := t.client.topicForPublish(t.publish)
 	if err != nil {
+		// The message cannot be delivered (unknown topic ID) but the exchange
+		// must be completed, otherwise the gateway retransmits PUBREL in vain.
+		if err2 := t.client.send(pubcomp); err2 != nil {
+			return err2
+		}
+		t.Success()
 		return err
 	}
 	t.client.messageHandlers.handle(t.client, topic, t.publish)
